@@ -37,6 +37,10 @@ CLAIMED = {
    text="Machine-checked proof (Lean 4, full): dict refines a finite map (add_refines, containsKey/tryFind/item_refines, keys/kvs_enumerates with Nodup for EVERY enumeration order, toDict_last), strings laws for all byte strings (concat_split, concat_splitN, splitN2, hasPrefix/hasSuffix_iff, trimSuffix_append, argument-order theorems) over a transcription of Go's genSplit/Index, buf_accumulates, frt thunk/tuple laws, and toS_total: for every reflect kind the accessor chosen by the REGENERATED kind switch is legal (false before fix a41e038: toS_unfixed_panics). Tied to /repo by regenerated inventories + toS arms and by lib.dict/lib.str/lib.buf/lib.tos correspondence streams against the real packages.",
    design="§5 C14", technique="Lean 4 theorems (refinement, list laws, decide over a regenerated table) + correspondence with the real packages",
    note="Trusted: Lean kernel; Go map = duplicate-free association list; transcription of Go's strings functions (explode only for single-byte characters); reflect accessor contract; float formatting not compared."),
+ "C16": dict(
+   text="Machine-checked proof (Lean 4, PARTIAL): driver_exit0_complete and driver_failure_discipline prove for EVERY argument list that the model of main/transpileFiles/transpileOne/OnParseError exits 0 only if every requested gen file was written completely, and otherwise names the offending argument in a diagnostic, writes nothing for it or any later argument, and keeps the earlier files. A byte-level model of the whole tokenizer (scanTokenAt and every scanner, nextToken, newTkz, tkzNext) is tied to the real one on every byte value, random fragment strings, corpus files and damaged corpus files. NOT proved: termination of parser / inference / emission (tied by running the real binary under timeout + memory limit on mutants of the samples and compiler sources, incl. self-referential definitions) and the scan_progress lemma (pending). Four genuine defects found and fixed: hang on // at EOF (b8a3c7e), dropped WriteFile result (e5a41f0), stack overflow on self-application (1e8a7fd) and on recursive records (2321b63).",
+   design="§5 C16", technique="Lean 4 theorems on the driver model + tokenizer model correspondence + real-binary mutant runs under timeout (termination itself is not proved)",
+   note="Trusted: Lean kernel; abstract per-file translation and I/O in the driver model; the Go runtime (stack, memory) is outside every model; root cannot induce permission faults."),
  "C18": dict(
    text="Machine-checked proof (Lean 4, full): readme_shape proves for every list file and every file system in which all listed files are readable that the model of processListFile writes header ++ intercalate \"\\n\" (one section per non-empty list line, in list order), each section = title (text after the first space, else the file name), the file's content verbatim inside a fence, and the link to gen_<base>.go; missing_fails proves that an unreadable listed file yields a failure with nothing written. Built on the C14 string theorems (splitN2, concat_spec). Tied to /repo by running the tool rebuilt from gen_build_sample_md.go on generated directories and on samples/filelist.txt (README bytes + exit status vs the model).",
    design="§5 C18", technique="Lean 4 theorems over the library models + correspondence with the rebuilt tool on generated directories",
@@ -81,7 +85,7 @@ def main():
             {"name": "harness", "path": "harness/", "serves_properties": sorted(CLAIMED), "kind_free_text": "Go drivers calling the real code in-process, go/ast fact extractor"},
         ],
         "checks": checks,
-        "notes": "Fix commits in /repo: 20f0992 (slice.PushLast), a41e038 (frt.toS), 01c3b5f (frt.OpEqual), 20818f3 (string literals). known_findings.json lists fixed and known findings.",
+        "notes": "Fix commits in /repo: 20f0992 (slice.PushLast), a41e038 (frt.toS), 01c3b5f (frt.OpEqual), 20818f3 (string literals), b8a3c7e e5a41f0 1e8a7fd 2321b63 (C16: hang, dropped write result, two stack overflows). known_findings.json lists fixed and known findings.",
         "not_applicable": na,
     }
     json.dump(m, open(os.path.join(V, "MANIFEST.json"), "w"), indent=1)
